@@ -132,6 +132,11 @@ def replay_ww(ctx: Ctx, recs: List[Dict[str, Any]], cost_den: int) -> None:
         e = frf(r["out"])
         if not abs(got.item() - e) <= 1e-14 * (1 + e):
             ctx.violation("ww:width", "ww_width is not (3 c Gamma^2 S / (2 a))^(1/3)", {"case": c, "expected": e, "observed": got.item()})
+        # gamma enters squared: a NEGATIVE gamma (binary options in the money) gives the same width
+        neg = F.ww_width(gamma=torch.tensor([-float(c["gamma"])], dtype=dtype), spot=torch.tensor([float(c["spot"])], dtype=dtype), cost=c["cn"] / cost_den, a=frf(c["a"]))
+        ctx.count(n=1)
+        if not abs(neg.item() - e) <= 1e-14 * (1 + e):
+            ctx.violation("ww:width:negative-gamma", "ww_width of a negative gamma is not (3 c Gamma^2 S / (2 a))^(1/3)", {"case": c, "expected": e, "observed": neg.item()})
     # ---- band logic through the module with a scripted Black-Scholes stub, width from exact tuples
     nz = [r for r in width if fr(r["c"]["w"]) in {fr(b["c"]["w"]) for b in band}]
     for wr in nz:
@@ -158,6 +163,25 @@ def replay_ww(ctx: Ctx, recs: List[Dict[str, Any]], cost_den: int) -> None:
             i = int(((got - exp).abs() > 1e-14).any(dim=-1).nonzero()[0]) if got.shape == exp.shape else 0
             ctx.violation("ww:band", "WhalleyWilmott does not keep the previous hedge inside delta +/- width and move to the nearest edge outside",
                           {"width_case": c, "band_case": bs_[i]["c"], "expected": exp[i].item(), "observed": got[i].tolist()})
+    # ---- the strategy on European binary options (negative gamma in the money): finite, and for zero cost the delta hedge
+    from pfhedge.instruments import EuropeanBinaryOption
+    for cost in (0.0, 1e-3):
+        stock = BrownianStock(cost=cost)
+        dbin = EuropeanBinaryOption(stock, strike=1.0)
+        wwb = WhalleyWilmott(dbin)
+        bsb = BlackScholes(dbin)
+        lmb = torch.tensor([-0.2, -0.05, 0.05, 0.2, 0.4], dtype=dtype)
+        x3 = torch.stack([lmb, torch.full_like(lmb, 0.5), torch.full_like(lmb, 0.2)], dim=-1)
+        prevb = torch.tensor([0.0, 0.5, 1.0, 2.0, -1.0], dtype=dtype)
+        outb = wwb(torch.cat([x3, prevb[:, None]], dim=-1))
+        deltab = bsb(x3)
+        gammab = bsb.gamma(lmb[:, None], x3[:, [1]], x3[:, [2]])
+        wb = (3 * cost * gammab.square() * lmb[:, None].exp() / 2) ** (1 / 3)
+        expb = torch.where((prevb[:, None] - deltab).abs() <= wb, prevb[:, None], torch.where(prevb[:, None] < deltab, deltab - wb, deltab + wb))
+        ctx.count(n=5)
+        if not bool(outb.isfinite().all()) or not bool(((outb - expb).abs() <= 1e-12).all()):
+            ctx.violation("ww:module-band:binary", "WhalleyWilmott on a European binary option (gamma negative in the money) differs from the band around the Black-Scholes delta",
+                          {"cost": cost, "gamma": gammab.flatten().tolist(), "observed": outb.flatten().tolist(), "expected": expb.flatten().tolist()})
     # ---- real Black-Scholes inside: zero cost = delta hedge; positive cost = clamp of prev into delta +/- ww_width
     torch.manual_seed(ctx.seed)
     for cost in (0.0, 1e-3, 1e-2):
